@@ -164,6 +164,64 @@ func runC20(c *Ctx) {
 	}
 	r.Sample("forward", map[string]interface{}{"sql_levels": "-8..64", "supported": []string{"Default->ReadCommitted", "ReadUncommitted", "ReadCommitted", "RepeatableRead", "Serializable"}})
 
+	// ---- forward and backward under concurrency: goroutines translating
+	// DIFFERENT levels at the same time, every answer checked
+	{
+		G := 8
+		per := 150000
+		if !c.Quick() {
+			per = 2000000
+		}
+		levels := []sql.IsolationLevel{sql.LevelDefault, sql.LevelReadUncommitted, sql.LevelReadCommitted, sql.LevelRepeatableRead, sql.LevelSerializable, sql.LevelSnapshot, sql.IsolationLevel(-1)}
+		type bad struct {
+			in       int
+			got      int
+			err      bool
+			backward bool
+		}
+		var wg sync.WaitGroup
+		bads := make([][]bad, G)
+		var ready, goFlag int32
+		for w := 0; w < G; w++ {
+			wg.Add(1)
+			go func(w int) {
+				defer wg.Done()
+				atomic.AddInt32(&ready, 1)
+				for atomic.LoadInt32(&goFlag) == 0 {
+				}
+				for i := 0; i < per && len(bads[w]) < 3; i++ {
+					sl := levels[(i+w)%len(levels)]
+					got, err := dblib.ASEIsolationLevelFromGo(sl)
+					wv, supported := want[sl]
+					if supported && (err != nil || got != wv) || !supported && err == nil {
+						bads[w] = append(bads[w], bad{in: int(sl), got: int(got), err: err != nil})
+					}
+					if supported && sl != sql.LevelDefault && err == nil {
+						if b := got.ToGo(); b != sl && got == wv {
+							bads[w] = append(bads[w], bad{in: int(sl), got: int(b), backward: true})
+						}
+					}
+				}
+			}(w)
+		}
+		for atomic.LoadInt32(&ready) < int32(G) {
+			runtime.Gosched()
+		}
+		atomic.StoreInt32(&goFlag, 1)
+		wg.Wait()
+		r.Eval(int64(G * per))
+		r.Count("concurrent_translations", int64(G*per))
+		for w := range bads {
+			for _, b := range bads[w] {
+				if b.backward {
+					r.Violate(fmt.Sprintf("concurrent/roundtrip/sql=%d", b.in), fmt.Sprintf("with %d goroutines translating different levels at the same time, FromGo(%d).ToGo() returned %d", G, b.in, b.got), map[string]int{"sql": b.in, "goroutines": G})
+				} else {
+					r.Violate(fmt.Sprintf("concurrent/forward/sql=%d", b.in), fmt.Sprintf("with %d goroutines translating different levels at the same time, FromGo(%d) returned (%d, error=%v)", G, b.in, b.got, b.err), map[string]int{"sql": b.in, "goroutines": G})
+				}
+				break
+			}
+		}
+	}
 	// ---- backward, in process
 	N := 20000
 	K := 8
